@@ -209,7 +209,7 @@ func checkC03(P *Prog, r *Result) {
 	_ = nCtor
 
 	P.checkCoercedValueStored(r)
-	P.checkCoercionTable(r)
+	P.checkCoercionTable(r, "C03/coercion-table")
 	P.checkIndexAgreement(r)
 	P.checkStructWritesByField(r)
 	P.checkPointerAlloc(r)
@@ -941,7 +941,7 @@ func normaliseCoercionRow(P *Prog, s string) string {
 	return s
 }
 
-func (P *Prog) checkCoercionTable(r *Result) {
+func (P *Prog) checkCoercionTable(r *Result, rule string) {
 	// locate the closure passed to TimeCoercerFactory for the default Time coercer
 	find := func(key string) *ssa.Function {
 		if key == "zog/conf.init$TIME-DEFAULT-FORMAT" {
@@ -970,13 +970,13 @@ func (P *Prog) checkCoercionTable(r *Result) {
 		fn := find(key)
 		c := key
 		if fn == nil {
-			r.undecided("C03/coercion-table", c, "-", "coercer function not found")
+			r.undecided(rule, c, "-", "coercer function not found")
 			continue
 		}
 		r.sawFunc(fname(fn))
 		rows, probs := P.coercionRows(fn)
 		if len(probs) > 0 {
-			r.undecided("C03/coercion-table", c, P.pos(fn.Pos()), "coercer has an unrecognised shape: "+strings.Join(probs, "; "))
+			r.undecided(rule, c, P.pos(fn.Pos()), "coercer has an unrecognised shape: "+strings.Join(probs, "; "))
 			continue
 		}
 		want := append([]string{}, coercionTable[key]...)
@@ -999,14 +999,16 @@ func (P *Prog) checkCoercionTable(r *Result) {
 			}
 		}
 		if len(missing)+len(extra) == 0 {
-			r.ok("C03/coercion-table", c, P.pos(fn.Pos()), fmt.Sprintf("%d success path(s) = the documented coercion table", len(rows)), rows...)
+			r.ok(rule, c, P.pos(fn.Pos()), fmt.Sprintf("%d success path(s) = the documented coercion table", len(rows)), rows...)
 		} else {
-			r.bad("C03/coercion-table", c, P.pos(fn.Pos()), "the coercer does not apply the documented operation to each input type (input type | conditions ⇒ result)", append(missing, extra...)...)
+			r.bad(rule, c, P.pos(fn.Pos()), "the coercer does not apply the documented operation to each input type (input type | conditions ⇒ result)", append(missing, extra...)...)
 		}
 	}
-	r.floor("C03/coercion-table", 11)
+	r.floor(rule, 11)
 
-	P.checkCoercerResultTypes(r, "C03/coercer-result-type")
+	if rule == "C03/coercion-table" {
+		P.checkCoercerResultTypes(r, "C03/coercer-result-type")
+	}
 }
 
 // checkCoercerResultTypes: every success path of a default coercer returns the
